@@ -113,3 +113,50 @@ Example C02_example_run :
   | None => False end /\
   (Qred (spec_cell WithAmbiguous TranscriptLevel evs 1 None) = 3 # 2)%Q.
 Proof. vm_compute. repeat split; reflexivity. Qed.
+
+(* ---- tie to the source.  gen/Extra.v and gen/Tables.v are regenerated from src/long_read_counter.py / src/isoform_assignment.py on
+        every check (tools/translate_extra.py, translate_tables.py): CountingStrategy with its predicates, COUNTING_STRATEGIES,
+        CountingStrategyFlags.__init__, ReadWeightCounter.process_ambiguous / process_inconsistent (floats read as exact rationals),
+        ReadAssignmentType with its classification sets, GroupedOutputFormat.  cs_of / rat_of / csf_of (CountingBridgeDefs.v) map the
+        model's constructors to the members of the source's enums.  The library with the proofs is loaded inside each proof, so that
+        an edit of the source that invalidates it is reported against these theorems and the theorems above are still checked. *)
+From IQ.gen Require Tables Extra.
+From IQ Require Import CountingBridgeDefs.
+(* the model's flags and weights are the source's, for every strategy, assignment type and feature count *)
+Theorem C02_weights_are_the_sources : forall s t k,
+  process_ambiguous (flags_of s) k = Extra.py_process_ambiguous (Extra.CSF_init (cs_of s)) (Z.of_nat k) /\
+  process_inconsistent (flags_of s) t k = Extra.py_process_inconsistent (Extra.CSF_init (cs_of s)) (rat_of t) (Z.of_nat k) /\
+  csf_of (flags_of s) = Extra.CSF_init (cs_of s) /\
+  s_no_inconsistent s = Extra.CS_mem (cs_of s) Extra.CS_no_inconsistent /\
+  map cs_of all_strategies = Extra.CS_all /\ Extra.CS_COUNTING_STRATEGIES = Extra.CS_all /\
+  is_unique t = rat_mem (rat_of t) Tables.RAT_is_unique /\ is_inconsistent t = rat_mem (rat_of t) Tables.RAT_is_inconsistent /\
+  is_unassigned t = rat_mem (rat_of t) Tables.RAT_is_unassigned.
+Proof.
+From IQ Require CountingBridge.
+exact CountingBridge.weights_are_the_sources. Qed.
+Print Assumptions C02_weights_are_the_sources.
+(* hence the weight of a record, written with the source's functions and sets only *)
+Theorem C02_weight_tk_is_the_source : forall s t k,
+  weight_tk (flags_of s) t k =
+  let fl := Extra.CSF_init (cs_of s) in
+  if rat_mem (rat_of t) Tables.RAT_is_unique then 1%Q
+  else if Tables.RAT_eqb (rat_of t) Tables.RAT_ambiguous then Extra.py_process_ambiguous fl (Z.of_nat k)
+  else if rat_mem (rat_of t) Tables.RAT_is_inconsistent then Extra.py_process_inconsistent fl (rat_of t) (Z.of_nat k)
+  else 0%Q.
+Proof.
+From IQ Require CountingBridge.
+exact CountingBridge.weight_tk_is_the_source. Qed.
+Print Assumptions C02_weight_tk_is_the_source.
+(* every member of the source's enums is the image of a constructor of the model (nothing of the source is left unmodelled) *)
+Theorem C02_enums_are_covered : (forall x : Tables.RAT, exists t, rat_of t = x) /\ (forall a b, rat_of a = rat_of b -> a = b).
+Proof.
+From IQ Require CountingBridge.
+exact (conj CountingBridge.rat_of_onto CountingBridge.rat_of_inj). Qed.
+Print Assumptions C02_enums_are_covered.
+(* GroupedOutputFormat.output_matrix / output_linear: the (matrix, linear) pair handed to mk_counter for --counts_format matrix / linear / both *)
+Theorem C02_grouped_format_is_the_source :
+  Extra.GOF_all = [Extra.GOF_matrix; Extra.GOF_linear; Extra.GOF_both] /\ map fmt_of Extra.GOF_all = [(true, false); (false, true); (true, true)].
+Proof.
+From IQ Require CountingBridge.
+exact CountingBridge.grouped_format_is_the_source. Qed.
+Print Assumptions C02_grouped_format_is_the_source.
